@@ -14,7 +14,11 @@
    - reading an attribute that is not a metadata field is an AttributeError (MetaModel.read returns the raw value);
    - from_raw iterates  sorted(fields_to_check)  (the code sorts since b880671); from_raw3_ord keeps the order a parameter, the
      observation layer instantiates it with [sort_s].
-   Everything that does not depend on the oracles is shared with MetaModel.v (values, the instance, the gate, p_name, ...). *)
+   Everything that does not depend on the oracles is shared with MetaModel.v (values, the instance, the gate, p_name, ...).
+
+   NOT oracles, modelled as TOTAL (accept or reject, never another exception): Version (VMeaning.Version, the C01/C12 model),
+   canonicalize_name (Names.valid_name) and the pathlib tests (o3_path : bool).  The model's Version has no digit limit: a component of
+   more than 4300 digits is a valid version here and an InvalidMetadata in the code (finding D10, harness matcher match_c17_d10). *)
 From Coq Require Import List NArith Bool String.
 Import ListNotations.
 Require Import Show Names SpecModel VMeaning MetaTable MetaBase MetaShow MetaModel.
